@@ -75,6 +75,9 @@ let string_of_msg = function
   | MCompleteTask (i, t, x) -> Printf.sprintf "CompleteTask(%d,%d,%s)" (int_of_nat i) (int_of_nat t) (string_of_status x)
   | MJumpToStage (i, tg, _, _) -> Printf.sprintf "JumpToStage(%d,%d)" (int_of_nat i) (int_of_nat tg)
   | MSignalStage (i, n, p) -> Printf.sprintf "SignalStage(%d,%d,%s)" (int_of_nat i) (int_of_nat n) (sb p)
+  | MPauseTask (i, t) -> Printf.sprintf "PauseTask(%d,%d)" (int_of_nat i) (int_of_nat t)
+  | MResumeStage i -> Printf.sprintf "ResumeStage(%d)" (int_of_nat i)
+  | MRestartStage i -> Printf.sprintf "RestartStage(%d)" (int_of_nat i)
 
 let string_of_state s =
   let b = Buffer.create 512 in
@@ -125,6 +128,7 @@ let () =
             | ["D"; id; a] -> Deliver (nat_s id, b01 a)
             | ["X"; id; k] -> DeliverCut (nat_s id, nat_s k)
             | ["R"] -> Recover | ["C"] -> Cancel | ["B"] -> Submit
+            | ["P"] -> Pause | ["U"] -> Unpause | ["T"; i] -> Restart (nat_s i)
             | ["S"; i; n; p] -> Signal (nat_s i, nat_s n, b01 p)
             | _ -> failwith ("action " ^ line) in
           let s = get () in
